@@ -54,6 +54,11 @@ class Ctx:
 		return index % self.nshards == self.shard
 
 	def out_of_time(self) -> bool:
+		"""Wall-clock budget that only ever truncates the workload. The first two polls never report exhaustion, so that every shard
+		does a minimum of work even on a heavily loaded machine (a run that observed nothing would be inconclusive, not a pass)."""
+		self._polls = getattr(self, '_polls', 0) + 1
+		if self._polls <= 2:
+			return False
 		return self.deadline is not None and time.time() > self.deadline
 
 
